@@ -3,7 +3,7 @@
    variants, positional / option / flag fields, Option, default_value, default_value_t, explicit names, nested sub-commands, groups,
    hidden groups); `conv` is the field type's canonical parser. That the proc-macro emits what the model interprets is established
    only on the declarations generated and compiled each run (programs are sampled - stated in DESIGN.md and MANIFEST.json). *)
-From EC Require Import Base Model.Args Model.Cli Model.Derive Spec.ArgSpec Spec.Session Proofs.ArgsProofs Proofs.DeriveProofs Proofs.SessionProofs Proofs.HelpProofs Proofs.SubcmdProofs.
+From EC Require Import Base Model.Args Model.Cli Model.Derive Model.Group Spec.ArgSpec Spec.Session Proofs.ArgsProofs Proofs.DeriveProofs Proofs.SessionProofs Proofs.HelpProofs Proofs.SubcmdProofs Proofs.GroupProofs.
 
 (* dispatch by name: unknown name <=> no variant has it; otherwise the FIRST variant with that name parses the arguments *)
 Theorem C09_unknown : forall fuel cmds name args, Forall (fun d => c_name d <> name) cmds -> parse_enum (S fuel) cmds name args = PErr EUnknown.
@@ -72,6 +72,23 @@ Theorem C09_subcommand_missing : forall ps c o t subs, c_sub c = Some (o, t, sub
   end.
 Proof. exact parse_cmd_sub_missing. Qed.
 Print Assumptions C09_subcommand_missing.
+
+(* NESTED command groups (a group as a member of a group; Model/Group.v is the model of what derive(CommandGroup) emits then): parsing is
+   that of the flat group with the same enums in the same order - the first member at any depth, hidden or not, that does not answer
+   UnknownCommand decides. The same holds for completion names, the `help` listing and command help (hidden = some group above is
+   hidden): the checks therefore hand nested declarations to the driver in flattened form. *)
+Theorem C09_nested_groups : forall name args t hidden, g_parse name args t = fst (parse_group (flatten hidden t) name args).
+Proof. exact parse_flatten. Qed.
+Print Assumptions C09_nested_groups.
+Theorem C09_nested_groups_names_help : forall t,
+  (forall hidden, set_names (SGroup (flatten hidden t)) = if hidden then [] else g_names t) /\
+  (forall name args, g_help name args t = cmd_help_group (flatten false t) name args) /\
+  (forall ms, t = GNode ms -> g_list t = list_commands_set (SGroup (flatten false t))).
+Proof.
+  intros t. split; [intros hidden; exact (names_flatten t hidden)|]. split; [intros name args; exact (help_flatten name args t)|].
+  intros ms ->. exact (list_group_flatten ms).
+Qed.
+Print Assumptions C09_nested_groups_names_help.
 
 (* a line the typed parser rejects never reaches the handler (abstract dispatch, which the Cli refines: C01) *)
 Theorem C09_no_call_on_error : forall feats cs a n args e, QuoteSpec.tokens_fun (IdealEditor.ibytes (aline a)) = n :: args ->
